@@ -118,7 +118,7 @@ CLAIMS = {
          BND_NOTE % 'C04' + LX, 'Lean equivariance proofs for algebraic measures; exhaustive small-scope equivariance check (bounded) for the rest', '5/C04'),
  'C14': ('exploration',
          'Partly deductive: Lean proofs over the extracted real source that the given-partition values of modularity_und, modularity_dir (label_invariant under injective g; depends on the partition only) and '
-         'modularity_und_sign (5 qtypes, relative to the rank contract of np.unique and free node degrees) are invariant under renaming of labels — 9 theorems. participation_coef(_sign), '
+         'modularity_und_sign (5 qtypes, relative to the rank contract of np.unique and free node degrees) are invariant under renaming of labels — 9 theorems. participation_coef (degree undirected/out) is proved (pyvc+z3) to return 1 - sum_m modsum(W, ci, x, m)^2 / strength(x)^2 (0 for isolated nodes) for the rank labels produced by np.unique, an expression that depends on the labels only through the partition (Lean: msq_relabel). participation_coef_sign, '
          'module_degree_zscore, diversity_coef_sign, partition_distance (symmetry, identity, range), agreement, ci2ls/ls2ci are BOUNDED only (all partitions n<=5 x relabellings incl. zero-based, '
          'non-contiguous, negative). gateway_coef_sign is a known finding.',
          BND_NOTE % 'C14' + LX, 'Lean label-invariance proofs for the modularity values; relabelling on all partitions of small node sets (bounded) for the other consumers', '5/C14'),
@@ -201,9 +201,9 @@ def main():
             'add_only': True,
         },
         'engines': [
-            {'name': 'pyvc', 'path': 'engine/pyvc', 'serves_properties': ['C01', 'C02', 'C03', 'C06', 'C07', 'C11', 'C12', 'C08', 'C15', 'C16', 'C17', 'C20'], 'kind_free_text': 'AST -> verification conditions -> z3/cvc5 over the real source, sidecar contracts (deductive, unbounded)'},
+            {'name': 'pyvc', 'path': 'engine/pyvc', 'serves_properties': ['C01', 'C02', 'C03', 'C06', 'C07', 'C11', 'C12', 'C08', 'C14', 'C15', 'C16', 'C17', 'C20'], 'kind_free_text': 'AST -> verification conditions -> z3/cvc5 over the real source, sidecar contracts (deductive, unbounded)'},
             {'name': 'pyframe', 'path': 'engine/pyframe', 'serves_properties': ['C05', 'C13'], 'kind_free_text': 'static frame (mutation/alias) and effect (RNG) obligations over the real AST'},
-            {'name': 'lean', 'path': 'engine/lean', 'serves_properties': ['C01', 'C02', 'C03', 'C04', 'C06', 'C07', 'C08', 'C09', 'C10', 'C11', 'C14', 'C15', 'C18', 'C19', 'C20'], 'kind_free_text': 'Lean 4 + Mathlib: lemma library justifying every SMT axiom (VerifLemmas.lean) and numpy->Lean extraction of the real source with stored proofs (extract.py, ExtractedProofs.lean)'},
+            {'name': 'lean', 'path': 'engine/lean', 'serves_properties': ['C01', 'C02', 'C03', 'C04', 'C06', 'C07', 'C08', 'C09', 'C10', 'C11', 'C12', 'C14', 'C15', 'C18', 'C19', 'C20'], 'kind_free_text': 'Lean 4 + Mathlib: lemma library justifying every SMT axiom (VerifLemmas.lean) and numpy->Lean extraction of the real source with stored proofs (extract.py, ExtractedProofs.lean)'},
             {'name': 'weave', 'path': 'engine/weave.py', 'serves_properties': sorted(CLAIMS), 'kind_free_text': 'bounded stand-in: the same contracts executed on the real functions over exhaustive small scopes with a scripted RandomState'},
         ],
         'checks': checks,
